@@ -243,12 +243,44 @@ def gen_desc(seed, idx):
             ops.append({'t': round(1.0 + rng.choice([0.25, 10.25, 30.25, 70.25]), 3), 'op': 'req', 'c': 's0', 's': 'c0', 'tok': TOK_BASE + 100 + k, 'rq': rq,
                         'rs': rng.choice([0, 3, 10])})
         ops.sort(key=lambda o: o['t'])
+    iam = rng.random() < 0.85
+    if iam and rng.random() < 0.25:
+        # identity churn (legal histories only: a device instance lives at ONE address at a time).  Before a real stack has
+        # announced itself its device instance may have been announced from elsewhere (the device used to live at another
+        # address and moved); fresh instances appear on the other stations, move between them and take over vacated
+        # addresses; the real stacks announce themselves at seeded points in between and repeat that later.  What a
+        # requester may send to a peer is still bounded by what was announced FROM THAT PEER'S ADDRESS.
+        iam = False
+        stacks.append({'name': 'raw0', 'addr': 30, 'role': 'raw'})
+        stacks.append({'name': 'raw1', 'addr': 31, 'role': 'raw'})
+        tt = 0.02
+        announced = set()
+        for k in range(rng.randint(3, 7)):
+            tt += rng.choice([0.02, 0.05, 0.1])
+            if rng.random() < 0.35:
+                node = rng.choice(['c0', 's0'])
+                announced.add(node)
+                ops.append({'t': round(tt, 3), 'op': 'iam', 'node': node})
+            else:
+                cands = [2000, 2001] + ([1001] if 'c0' not in announced else []) + ([1010, 1010] if 's0' not in announced else [])
+                dev = rng.choice(cands)
+                apdu = wire.unconf_req(0, wire.tag_objid(8, dev) + wire.tag_uint(rng.choice(txngen.APDU_SIZES)) + wire.tag_enum(rng.randint(0, 3)) + wire.tag_uint(999))
+                ops.append({'t': round(tt, 3), 'op': 'raw', 'node': rng.choice(['raw0', 'raw1']), 'dst': '*', 'octets': wire.encode_npdu(apdu).hex()})
+        for node in ('c0', 's0'):
+            if node not in announced and rng.random() < 0.85:
+                tt += 0.02
+                ops.append({'t': round(tt, 3), 'op': 'iam', 'node': node})
+        if rng.random() < 0.3:
+            ops.append({'t': 15.1, 'op': 'iam', 'node': rng.choice(['c0', 's0'])})
+        ops.sort(key=lambda o: o['t'])
     faults = {'mode': 'none'}
-    if rng.random() < 0.2:
+    # (no delays in churn histories: an old announcement that overtakes a newer one makes the history the RECEIVER sees an
+    # illegal one -- two addresses for one instance -- about which the property says nothing)
+    if rng.random() < 0.2 and len(stacks) == 2:
         faults = {'mode': 'hashed', 'rates': {rng.choice(['drop', 'delay']): 0.05}, 'salt': rng.randrange(1 << 30),
                   'delays': [0.001, 1.0, 3.0], 'gaps': [0.0]}
     return {'prop': 'C12', 'scenario': 'txn', 'seed': H(seed, 'C12run', idx) & 0x7fffffff, 'stacks': stacks,
-            'iam': rng.random() < 0.85, 'ops': ops, 'faults': faults, 'caps': {'frames': 40000, 'ticks': 600000}}
+            'iam': iam, 'ops': ops, 'faults': faults, 'caps': {'frames': 40000, 'ticks': 600000}}
 
 
 def run_unit(unit):
@@ -269,9 +301,9 @@ def run_unit(unit):
         for o in outs:
             agg.stat('outcome.%s' % (o[2],))
         if outs:
-            c, s = d['stacks']
+            c, s = d['stacks'][:2]
             agg.sigs.add(H(c['maxApdu'], c['seg'], c['maxSegs'], s['maxApdu'], s['seg'], d['iam'],
-                           tuple((op['rq'], op['rs']) for op in d['ops']), tuple(o[2] for o in outs)))
+                           tuple((op['rq'], op['rs']) for op in d['ops'] if op['op'] == 'req'), tuple(o[2] for o in outs)))
         if len(agg.samples) < 2:
             agg.samples.append({'desc': d, 'trace': txngen.trace_sample(h, 25), 'outcomes': [[o[2], str(o[3])] for o in outs]})
         for v in viols:
